@@ -1444,7 +1444,7 @@ class RunMonitor:
         try:
             try:
                 self.phase = "pre"
-                b = BADS(target, non_box_cons=(cons if P.cons is not None else None), options=opts_copy, **args)
+                b = BADS(target, non_box_cons=(cons if P.cons is not None else None), options=opts_copy, **args, **(self.spec.get("ctor_extra") or {}))
             except Exception as e:
                 self.exc = e
                 rec["status"] = "ctor-exception"
